@@ -219,7 +219,13 @@ func c02worker(arg string) {
 	}
 	var rec execRec
 	states := map[string]struct{}{}
-	for _, p := range programs(len(t.ops), thorough) {
+	for _, p := range programs(len(t.ops), true) {
+		if r := replayReq; r != nil && fmt.Sprint([][]int(p)) != r.Scenario {
+			continue
+		}
+		if len(p) == 2 && len(p[0]) == 2 && len(p[1]) == 2 && !thorough && replayReq == nil {
+			continue // 2 x 2 programs: thorough tier (and replays)
+		}
 		if containsBad(p) {
 			st.Skipped++
 			continue
@@ -245,38 +251,21 @@ func c02worker(arg string) {
 		}
 		outcomes := map[string]bool{}
 		violated := false
-		e := &vrt.Explorer{Horizon: 20000, Quick: !thorough, Budget: budget, Deadline: deadline, MaxBound: 3}
-		e.StopEarly = func() bool { return violated }
-		e.Check = func(x *vrt.Exec) {
-			if violated {
-				return
-			}
-			key := fmt.Sprintf("%s.%s", t.name, p.methodsKey(t))
-			sched := append([]int16{}, x.Schedule()...)
-			wit := map[string]any{"type": t.name, "initial": init.name, "program": p.String(t), "schedule_thread_ids": sched}
-			rp := map[string]any{"engine": "conc", "check": "C02", "type": t.name, "init": ii, "program": [][]int(p), "choices": append([]int{}, e.LastChoices...)}
+		key := fmt.Sprintf("%s.%s", t.name, p.methodsKey(t))
+		// judge decides one complete execution: "" or (finding key, detail)
+		judge := func(x *vrt.Exec) (string, string) {
 			for i := 0; i < x.NumThreads(); i++ {
 				if pm := x.ThreadAt(i).Panic; pm != "" {
-					violated = true
-					out.finding(wFinding{key + "/panic-outside-a-call", "thread " + x.ThreadAt(i).Name + " panicked: " + pm, wit, rp})
-					return
+					return key + "/panic-outside-a-call", "thread " + x.ThreadAt(i).Name + " panicked: " + pm
 				}
 			}
 			if x.Deadlock {
-				violated = true
-				out.finding(wFinding{key + "/deadlock", "no thread enabled: " + x.DeadlockInfo + "; results so far " + rec.outcome(p), wit, rp})
-				return
+				return key + "/deadlock", "no thread enabled: " + x.DeadlockInfo + "; results so far " + rec.outcome(p)
 			}
 			if x.HorizonHit {
-				violated = true
-				out.finding(wFinding{key + "/livelock-horizon", "execution exceeded the step horizon", wit, rp})
-				return
+				return key + "/livelock-horizon", "execution exceeded the step horizon"
 			}
 			got := rec.outcome(p)
-			outcomes[got] = true
-			if len(states) < 2000000 {
-				states[fmt.Sprint(st.Scenarios, got, len(sched))] = struct{}{}
-			}
 			// a sequential order that respects real-time order and yields the same outcome?
 			for oi, ord := range ords {
 				if seqOut[oi] != got {
@@ -293,10 +282,9 @@ func c02worker(arg string) {
 					}
 				}
 				if okRT {
-					return
+					return "", ""
 				}
 			}
-			violated = true
 			allowed := map[string]bool{}
 			for _, s := range seqOut {
 				allowed[s] = true
@@ -306,14 +294,9 @@ func c02worker(arg string) {
 				al = append(al, s)
 			}
 			sort.Strings(al)
-			out.finding(wFinding{key + "/not-linearizable", fmt.Sprintf("concurrent outcome %q (results per call | ... # final observation) equals no sequential run that respects the real-time order; sequential outcomes: %q", got, al), wit, rp})
+			return key + "/not-linearizable", fmt.Sprintf("concurrent outcome %q (results per call | ... # final observation) equals no sequential run that respects the real-time order; sequential outcomes: %q", got, al)
 		}
-		for i := range rec.res {
-			for j := range rec.res[i] {
-				rec.res[i][j], rec.inv[i][j], rec.ret[i][j] = "", 0, 0
-			}
-		}
-		e.Explore(func() {
+		body := func() {
 			inst := init.mk()
 			var wg sync.WaitGroup
 			wg.Add(len(p))
@@ -331,7 +314,58 @@ func c02worker(arg string) {
 			}
 			wg.Wait()
 			rec.final = safeCall(func() string { return t.final(inst) })
-		})
+		}
+		reset := func() {
+			for i := range rec.res {
+				for j := range rec.res[i] {
+					rec.res[i][j], rec.inv[i][j], rec.ret[i][j] = "", 0, 0
+				}
+			}
+		}
+		if r := replayReq; r != nil {
+			reset()
+			x := vrt.Run(r.Choices, 20000, !thorough, body)
+			k, detail := judge(x)
+			fmt.Printf("replay %s init=%s program %s\n  schedule (thread ids): %v\n  outcome: %s\n", t.name, init.name, p.String(t), x.Schedule(), rec.outcome(p))
+			if k != "" {
+				fmt.Printf("  FAIL %s: %s\n", k, detail)
+			}
+			r.Seen, r.Hit = true, k == r.Key
+			return
+		}
+		e := &vrt.Explorer{Horizon: 20000, Quick: !thorough, Budget: budget, Deadline: deadline, MaxBound: 3}
+		e.StopEarly = func() bool { return violated }
+		e.Check = func(x *vrt.Exec) {
+			if violated {
+				return
+			}
+			got := rec.outcome(p)
+			outcomes[got] = true
+			sched := append([]int16{}, x.Schedule()...)
+			if len(states) < 2000000 {
+				states[fmt.Sprint(st.Scenarios, got, len(sched))] = struct{}{}
+			}
+			k, detail := judge(x)
+			if k == "" {
+				return
+			}
+			violated = true
+			choices := append([]int{}, e.LastChoices...)
+			wit := map[string]any{"type": t.name, "initial": init.name, "program": p.String(t), "schedule_thread_ids": sched}
+			rp := map[string]any{"engine": "conc", "check": "C02", "sub": "C02worker", "shard": arg, "type": t.name, "init": ii, "program": [][]int(p), "choices": choices}
+			// believed only if the same choice sequence fails the same way five more times
+			for i := 0; i < 5; i++ {
+				reset()
+				x2 := vrt.Run(choices, 20000, !thorough, body)
+				if k2, _ := judge(x2); k2 != k || rec.outcome(p) != got || x2.Diverged != "" {
+					st.Diverged = fmt.Sprintf("%s: violation %q not reproduced identically on re-execution %d (got %q %s)", p.String(t), k, i+1, k2, x2.Diverged)
+					return
+				}
+			}
+			out.finding(wFinding{k, detail, wit, rp})
+		}
+		reset()
+		e.Explore(body)
 		st.Execs += e.Execs
 		st.Steps += e.Steps
 		st.Outcomes += len(outcomes)
